@@ -2,6 +2,7 @@ package main
 
 import (
 	"go/token"
+	"sort"
 	"strings"
 
 	"golang.org/x/tools/go/ssa"
@@ -11,44 +12,66 @@ func init() {
 	register(&propDef{
 		ID:      "C14",
 		Level:   "other",
-		Explain: "Generator/parser agreement for commands derived from service registrations, decided by taint and structure: (T1) in consul routecmd.build every string appended to the command list that depends on data of the catalog entry (service name, tags, addresses) is appended only on the true edge of a validator call on that very string, and the validator is 'route.Parse succeeded, produced exactly one definition, and it is a route add' — so a registration that cannot be expressed (weight=abc, a tag containing a quote, a newline injecting a second command) is dropped on its own instead of poisoning the text every later table build parses; (Q1) the generator writes quoted fields the way the parser reads them (no %q/strconv.Quote while the parser takes the text verbatim); (I1) one service's failure affects only that service: serviceConfig returns only its own slice on every path, each per-service goroutine sends exactly one result, and the collector receives exactly len(m) results; (P4) a non-finite weight cannot leave the route parser (weight=Inf used to crash the process); (N1) the destination is built from ServiceAddress (node Address when empty) and ServicePort with net.JoinHostPort, and the scheme prefix comes from the proto= option table. (E1) the option text returned by parseURLPrefixTag does not pass through os.Expand; Not decided: that the parsed command denotes the registration for every value (string/URL equality after a parse).",
+		Explain: "Generator/parser agreement for commands derived from service registrations, decided by taint and structure. Sites are found by ROLE, not by function name: a COMMAND SINK is a store of a string into a list of strings whose backward slice contains the literal 'route add' and a field of consul's api.CatalogService (service name, tags, addresses), wherever in the repository it is (today: routecmd.build). (T1) every sink value is stored only where a validator verdict on that very value holds - the fact may be a bool or a nil error, may be established in a helper that returns the command together with its verdict, or at the call sites of a helper that does the storing - and the validator (followed through wrappers) says yes only when route.Parse succeeded on the candidate, produced exactly one definition, that definition is a route add, and route.NewTable accepted it; so a registration that cannot be expressed (weight=abc, a tag containing a quote, a newline injecting a second command) is dropped on its own instead of poisoning the text every later table build parses; (Q1) nothing in the slice of a command escapes with %q/strconv.Quote while the parser (the region of route.Parse) takes quoted text verbatim; (I1) one service's failure affects only that service: every goroutine that (transitively) queries the catalog for one service sends its result exactly once on every path on a channel, the collector loop receives from that channel once per iteration, has no exit after the receive, and iterates exactly as often as the loop that spawned the goroutines (other spelling of the join: the goroutine stores its result into its own slot or under a mutex and signals a sync.WaitGroup on every path, the spawner adds before each go statement and waits after the loop); the function that queries the catalog returns on the error edge (no exit/panic) and returns only its own slice; (P4) in the region of route.Parse a float produced by strconv.ParseFloat is returned only when it is known to be finite (weight=Inf used to crash the process); (N1) the destination in the slice of a command is built with net.JoinHostPort from ServiceAddress (node Address only where ServiceAddress is known to be empty, or through cmp.Or in that order) and ServicePort, no text carried around the loop that emits the commands flows into a command, and each proto= option selects its own scheme prefix; (E1) the option words the generator compares with proto=/weight=/redirect= do not pass through os.Expand. Not decided: that the parsed command denotes the registration for every value (string/URL equality after a parse).",
 		Run:     runC14,
 		Trusted: []string{"route.Parse is the parser NewTable uses (same function)", "hashicorp/consul/api field contents are arbitrary strings"},
-		Mutants: []mutant{
-			{Name: "options expanded with the environment", File: "registry/consul/routecmd.go", Old: "\ts = strings.TrimSpace(s[len(prefix):])\n", New: "\ts = strings.TrimSpace(expand(s[len(prefix):]))\n", Expect: "C14.E1"},
-
-			{Name: "validator bypassed", File: "registry/consul/routecmd.go", Old: "\t\t\tif !validRouteAdd(cfg) {", New: "\t\t\tif false && !validRouteAdd(cfg) {", Expect: "C14.T1"},
-			{Name: "validator accepts several commands", File: "registry/consul/routecmd.go", Old: "if err != nil || len(defs) != 1 || defs[0].Cmd != route.RouteAddCmd {", New: "if err != nil || len(defs) < 1 || defs[0].Cmd != route.RouteAddCmd {", Expect: "C14.T1"},
-			{Name: "validator ignores the parse error", File: "registry/consul/routecmd.go", Old: "if err != nil || len(defs) != 1 || defs[0].Cmd != route.RouteAddCmd {", New: "if len(defs) != 1 || defs[0].Cmd != route.RouteAddCmd {", Expect: "C14.T1"},
-			{Name: "validated string differs from the appended one", File: "registry/consul/routecmd.go", Old: "\t\t\tconfig = append(config, cfg)\n", New: "\t\t\tconfig = append(config, cfg+\" # \"+name)\n", Expect: "C14.T1"},
-			{Name: "strconv.Quote again", File: "registry/consul/routecmd.go", Old: "cfg += \" opts \\\"\" + strings.Join(ropts, \" \") + \"\\\"\"", New: "cfg += \" opts \" + strconv.Quote(strings.Join(ropts, \" \"))", Expect: "C14.Q1"},
-			{Name: "one failing catalog call empties everything", File: "registry/consul/service.go", Old: "\tvar config []string\n\tfor i := 0; i < len(m); i++ {\n\t\tcfg := <-cfgs\n\t\tconfig = append(config, cfg...)\n\t}", New: "\tvar config []string\n\tfor i := 0; i < len(m); i++ {\n\t\tcfg := <-cfgs\n\t\tif cfg == nil {\n\t\t\treturn \"\"\n\t\t}\n\t\tconfig = append(config, cfg...)\n\t}", Expect: "C14.I1"},
-			{Name: "goroutine sends nothing on failure", File: "registry/consul/service.go", Old: "\t\t\tcfgs <- w.serviceConfig(name, passing)\n", New: "\t\t\tif c := w.serviceConfig(name, passing); c != nil {\n\t\t\t\tcfgs <- c\n\t\t\t}\n", Expect: "C14.I1"},
-			{Name: "destination from the node address only", File: "registry/consul/routecmd.go", Old: "name, addr, port := r.svc.ServiceName, r.svc.ServiceAddress, r.svc.ServicePort", New: "name, addr, port := r.svc.ServiceName, r.svc.Address, r.svc.ServicePort", Expect: "C14.N1"},
-			{Name: "destination hoisted out of the per-tag loop", File: "registry/consul/routecmd.go", Old: "\tfor _, tag := range routetags {\n\t\tif route, opts, ok := parseURLPrefixTag(tag, r.prefix, r.env); ok {\n\t\t\tname, addr, port := r.svc.ServiceName, r.svc.ServiceAddress, r.svc.ServicePort\n\n\t\t\t// use consul node address if service address is not set\n\t\t\tif addr == \"\" {\n\t\t\t\taddr = r.svc.Address\n\t\t\t}\n\n\t\t\t// add .local suffix on OSX for simple host names w/o domain\n\t\t\tif runtime.GOOS == \"darwin\" && !strings.Contains(addr, \".\") && !strings.HasSuffix(addr, \".local\") {\n\t\t\t\taddr += \".local\"\n\t\t\t}\n\n\t\t\taddr = net.JoinHostPort(addr, strconv.Itoa(port))\n\t\t\t//tags := strings.Join(r.tags, \",\")\n\t\t\tdst := \"http://\" + addr + \"/\"\n", New: "\tname, addr, port := r.svc.ServiceName, r.svc.ServiceAddress, r.svc.ServicePort\n\tif addr == \"\" {\n\t\taddr = r.svc.Address\n\t}\n\tif runtime.GOOS == \"darwin\" && !strings.Contains(addr, \".\") && !strings.HasSuffix(addr, \".local\") {\n\t\taddr += \".local\"\n\t}\n\taddr = net.JoinHostPort(addr, strconv.Itoa(port))\n\tdst := \"http://\" + addr + \"/\"\n\tfor _, tag := range routetags {\n\t\tif route, opts, ok := parseURLPrefixTag(tag, r.prefix, r.env); ok {\n", Expect: "C14.N1"},
-			{Name: "validator without the table builder", File: "registry/consul/routecmd.go", Old: "\t_, err = route.NewTable(bytes.NewBufferString(cmd))\n\treturn err == nil", New: "\treturn true", Expect: "C14.T1"},
-			{Name: "non-finite weights accepted by the parser", File: "route/parse_new.go", Old: "if err != nil || math.IsNaN(f) || math.IsInf(f, 0) {", New: "if err != nil || (f < 0 && (math.IsNaN(f) || math.IsInf(f, 0))) {", Expect: "C14.P4"},
-			{Name: "benign: validator result in a local", File: "registry/consul/routecmd.go", Old: "\t\t\tif !validRouteAdd(cfg) {", New: "\t\t\tvalid := validRouteAdd(cfg)\n\t\t\tif !valid {", Expect: ""},
-		},
+		Mutants: c14mutants(),
 	})
 }
 
-func runC14(c *Ctx) {
-	build := c.method("registry/consul", "routecmd", "build")
-	if !c.need("C14.T1", build, "consul.routecmd.build") {
-		return
-	}
-	runC14T1(c, build)
-	runQuotingFor(c, "C14.Q1", build)
-	runC14I1(c)
-	runC14E1(c)
-	tmp := &Ctx{Dir: c.Dir, Pkgs: c.Pkgs, Fset: c.Fset, Prog: c.Prog, spkgs: c.spkgs, ppkgs: c.ppkgs, AllFns: c.AllFns, cg: c.cg}
-	runFiniteWeight(tmp, "C14.P4")
-	c.Obs = append(c.Obs, tmp.Obs...)
-	runC14N1(c, build)
+// c14sink is one place where a command derived from a catalog entry enters a list of commands.
+type c14sink struct {
+	store *ssa.Store
+	val   ssa.Value
+	fn    *ssa.Function
 }
 
+type c14state struct {
+	c      *Ctx
+	sinks  []c14sink
+	owners map[*ssa.Function]bool // functions that own a value in the backward slice of a command (same package as a sink)
+}
+
+func runC14(c *Ctx) {
+	st := &c14state{c: c, owners: map[*ssa.Function]bool{}}
+	st.findSinks()
+	c.atLeast("C14.T1", "stores of a catalog-derived 'route add' command into a list of commands (the generator)", len(st.sinks), 1)
+	if len(st.sinks) == 0 {
+		// the other generator rules have no subject either; they must not pass silently
+		for _, r := range []string{"C14.Q1", "C14.N1", "C14.E1"} {
+			c.undecided(r, "anchor|command generator", "no place found where a 'route add' command built from an api.CatalogService enters a list of commands")
+		}
+	} else {
+		runC14T1(st)
+		c14Quoting(st, "C14.Q1")
+		runC14N1(st)
+		runC14E1(st)
+	}
+	runC14I1(c)
+	c14FiniteWeight(c, "C14.P4")
+}
+
+// ---- roles ---------------------------------------------------------------------------------------------------
+
+func c14isCatalogField(v ssa.Value, field string) bool {
+	switch x := v.(type) {
+	case *ssa.UnOp:
+		if x.Op != token.MUL {
+			return false
+		}
+		fa, ok := x.X.(*ssa.FieldAddr)
+		return ok && namedIs(fa.X.Type(), "api.CatalogService") && (field == "" || fieldName(fa.X.Type(), fa.Field) == field)
+	case *ssa.Field:
+		return namedIs(x.X.Type(), "api.CatalogService") && (field == "" || fieldName(x.X.Type(), x.Field) == field)
+	}
+	return false
+}
+
+// taintedByCatalog: v depends on data of a catalog entry.
 func taintedByCatalog(v ssa.Value) bool {
+	if c14derives(v, func(x ssa.Value) bool { return c14isCatalogField(x, "") }) {
+		return true
+	}
 	return derivesThroughRepo(v, func(x ssa.Value) bool {
 		u, ok := x.(*ssa.UnOp)
 		if !ok || u.Op != token.MUL {
@@ -59,436 +82,821 @@ func taintedByCatalog(v ssa.Value) bool {
 	})
 }
 
-// isSingleAddValidator checks that f(cmd string) bool is: route.Parse(buffer of cmd) && err == nil && len(defs) == 1 && defs[0].Cmd == RouteAddCmd.
-func isSingleAddValidator(c *Ctx, f *ssa.Function) (bool, string) {
-	if f == nil || len(f.Blocks) == 0 || len(f.Params) != 1 || f.Signature.Results().Len() != 1 {
-		return false, "not a func(string) bool"
-	}
-	parse := c.fn("route", "Parse")
-	var pc *ssa.Call
-	eachInstr(f, func(i ssa.Instruction) {
-		if call, ok := i.(*ssa.Call); ok && call.Call.StaticCallee() == parse {
-			pc = call
-		}
-	})
-	if pc == nil {
-		return false, "does not call route.Parse"
-	}
-	if !derives(pc.Call.Args[0], func(v ssa.Value) bool { return v == f.Params[0] }) {
-		return false, "route.Parse is not applied to the candidate command"
-	}
-	isErr := func(v ssa.Value) bool { e, ok := v.(*ssa.Extract); return ok && e.Tuple == pc && e.Index == 1 }
-	isDefs := func(v ssa.Value) bool { e, ok := v.(*ssa.Extract); return ok && e.Tuple == pc && e.Index == 0 }
-	// every way of returning true requires: err == nil, len(defs) == 1, Cmd == RouteAddCmd
-	okAll, n := true, 0
-	why := ""
-	checkEdge := func(val ssa.Value, blk *ssa.BasicBlock) {
-		if bv, isK := constBool(val); isK && !bv {
-			return
-		}
-		n++
-		fs := factsAt(blk)
-		// the value itself may be the last conjunct
-		if b, ok := val.(*ssa.BinOp); ok {
-			fs = append(fs, Fact{b, true})
-		}
-		errNil, one, add := false, false, false
-		for _, ft := range fs {
-			if nn, ok := nilFact(ft, isErr); ok && !nn {
-				errNil = true
-			}
-			if b, ok := ft.Cond.(*ssa.BinOp); ok && ((b.Op == token.EQL && ft.Truth) || (b.Op == token.NEQ && !ft.Truth)) {
-				if lc, ok := b.X.(*ssa.Call); ok && calleeName(&lc.Call) == "builtin.len" && isDefs(lc.Call.Args[0]) {
-					if k, ok := constInt(b.Y); ok && k == 1 {
-						one = true
-					}
-				}
-				if s, ok := constString(b.Y); ok && s == "route add" {
-					if _, isCmd := fieldOf(b.X, "route.RouteDef", "Cmd"); isCmd {
-						add = true
-					}
-				}
-			}
-		}
-		if !errNil || !one || !add {
-			okAll = false
-			why = "a true verdict does not require"
-			if !errNil {
-				why += " [no parse error]"
-			}
-			if !one {
-				why += " [exactly one definition]"
-			}
-			if !add {
-				why += " [a route add command]"
-			}
-		}
-	}
-	eachInstr(f, func(i ssa.Instruction) {
-		r, ok := i.(*ssa.Return)
-		if !ok {
-			return
-		}
-		if phi, isPhi := r.Results[0].(*ssa.Phi); isPhi {
-			for k, e := range phi.Edges {
-				checkEdge(e, phi.Block().Preds[k])
-			}
-			return
-		}
-		checkEdge(r.Results[0], r.Block())
-	})
-	if !(okAll && n > 0) {
-		return false, why
-	}
-	// the table builder must accept it too (addRoute rejects invalid glob paths and target URLs):
-	// every true verdict is under `NewTable(cmd) err == nil`
-	nt := c.fn("route", "NewTable")
-	var ntc *ssa.Call
-	eachInstr(f, func(i ssa.Instruction) {
-		if call, ok := i.(*ssa.Call); ok && call.Call.StaticCallee() == nt {
-			ntc = call
-		}
-	})
-	if ntc == nil || !derives(ntc.Call.Args[0], func(v ssa.Value) bool { return v == f.Params[0] }) {
-		return false, "the command is not applied to an empty table (route.NewTable): a path that is not a valid glob or a target that is not a valid URL passes the parser but fails every later table build"
-	}
-	isNTErr := func(v ssa.Value) bool { e, ok := v.(*ssa.Extract); return ok && e.Tuple == ntc && e.Index == 1 }
-	okNT := true
-	eachInstr(f, func(i ssa.Instruction) {
-		r, ok := i.(*ssa.Return)
-		if !ok {
-			return
-		}
-		check := func(val ssa.Value, blk *ssa.BasicBlock) {
-			if bv, isK := constBool(val); isK && !bv {
-				return
-			}
-			fs := factsAt(blk)
-			if b, ok := val.(*ssa.BinOp); ok {
-				fs = append(fs, Fact{b, true})
-			}
-			good := false
-			for _, ft := range fs {
-				if nn, ok := nilFact(ft, isNTErr); ok && !nn {
-					good = true
-				}
-			}
-			if !good {
-				okNT = false
-			}
-		}
-		if phi, isPhi := r.Results[0].(*ssa.Phi); isPhi {
-			for k, e := range phi.Edges {
-				check(e, phi.Block().Preds[k])
-			}
-			return
-		}
-		check(r.Results[0], r.Block())
-	})
-	if !okNT {
-		return false, "a true verdict does not require route.NewTable to accept the command"
-	}
-	return true, ""
+func c14isRouteAddText(v ssa.Value) bool {
+	s, ok := constString(v)
+	return ok && strings.Contains(s, "route add")
 }
 
-func runC14T1(c *Ctx, build *ssa.Function) {
-	n := 0
-	eachInstr(build, func(i ssa.Instruction) {
-		call, ok := i.(*ssa.Call)
-		if !ok || calleeName(&call.Call) != "builtin.append" || typeStr(call.Type()) != "[]string" {
+func (st *c14state) findSinks() {
+	for _, f := range st.c.AllFns {
+		ff := f
+		eachInstr(f, func(i ssa.Instruction) {
+			s, ok := i.(*ssa.Store)
+			if !ok || typeStr(s.Val.Type().Underlying()) != "string" {
+				return
+			}
+			if _, isElem := s.Addr.(*ssa.IndexAddr); !isElem {
+				return
+			}
+			if _, isK := s.Val.(*ssa.Const); isK {
+				return
+			}
+			// copying an element from one list to another is not an entry: it was checked where it entered the first list
+			switch x := c14stripConv(s.Val).(type) {
+			case *ssa.UnOp:
+				if _, isElem := x.X.(*ssa.IndexAddr); isElem && x.Op == token.MUL {
+					return
+				}
+			case *ssa.Index, *ssa.Lookup:
+				return
+			case *ssa.Extract:
+				if _, isNext := x.Tuple.(*ssa.Next); isNext {
+					return
+				}
+			}
+			if !c14derives(s.Val, c14isRouteAddText) || !taintedByCatalog(s.Val) {
+				return
+			}
+			st.sinks = append(st.sinks, c14sink{s, s.Val, ff})
+		})
+	}
+	for _, s := range st.sinks {
+		home := rootPkg(s.fn)
+		for f := range c14slice(s.val, nil) {
+			if rootPkg(f) == home {
+				st.owners[f] = true
+			}
+		}
+		st.owners[s.fn] = true
+	}
+}
+
+// ownerFns: deterministic order.
+func (st *c14state) ownerFns() []*ssa.Function {
+	var out []*ssa.Function
+	for f := range st.owners {
+		out = append(out, f)
+	}
+	sort.Slice(out, func(i, j int) bool { return out[i].String() < out[j].String() })
+	return out
+}
+
+// ---- facts, verdicts and what a verdict implies ---------------------------------------------------------------------
+
+type c14nil struct {
+	V     ssa.Value
+	IsNil bool
+}
+
+// c14env: what is known at a program point: branch facts and nil-ness of values.
+type c14env struct {
+	Facts []Fact
+	Nils  []c14nil
+}
+
+func c14envAt(blk *ssa.BasicBlock, extra *c14env) c14env {
+	var env c14env
+	if blk != nil {
+		env.Facts = append(env.Facts, factsAt(blk)...)
+	}
+	if extra != nil {
+		env.Facts = append(env.Facts, extra.Facts...)
+		env.Nils = append(env.Nils, extra.Nils...)
+	}
+	for _, ft := range env.Facts {
+		b, ok := ft.Cond.(*ssa.BinOp)
+		if !ok || (b.Op != token.EQL && b.Op != token.NEQ) {
+			continue
+		}
+		var other ssa.Value
+		switch {
+		case isNilConst(b.Y):
+			other = b.X
+		case isNilConst(b.X):
+			other = b.Y
+		}
+		if other != nil {
+			env.Nils = append(env.Nils, c14nil{other, (b.Op == token.EQL) == ft.Truth})
+		}
+	}
+	return env
+}
+
+// c14edgeFact: what taking the edge pred -> succ adds to the facts at pred (a merge has no facts of its own, but each
+// alternative is chosen on an edge).
+func c14edgeFact(pred, succ *ssa.BasicBlock) *c14env {
+	if pred == nil || succ == nil || len(pred.Instrs) == 0 || len(pred.Succs) != 2 || pred.Succs[0] == pred.Succs[1] {
+		return nil
+	}
+	iff, ok := pred.Instrs[len(pred.Instrs)-1].(*ssa.If)
+	if !ok {
+		return nil
+	}
+	cond, truth := iff.Cond, pred.Succs[0] == succ
+	for {
+		u, isNot := cond.(*ssa.UnOp)
+		if !isNot || u.Op != token.NOT {
+			break
+		}
+		cond, truth = u.X, !truth
+	}
+	return &c14env{Facts: []Fact{{cond, truth}}}
+}
+
+// c14edgeFacts: the branch facts that hold when control goes from pred to succ.
+func c14edgeFacts(pred, succ *ssa.BasicBlock) []Fact {
+	return c14envAt(pred, c14edgeFact(pred, succ)).Facts
+}
+
+// c14verdict: "result Res of Call is true/false" or "result Res of Call (an error) is nil".
+type c14verdict struct {
+	Call  *ssa.Call
+	Res   int
+	IsErr bool
+	Truth bool // bool verdicts
+}
+
+func c14callResult(v ssa.Value) (*ssa.Call, int, bool) {
+	switch x := v.(type) {
+	case *ssa.Call:
+		return x, 0, true
+	case *ssa.Extract:
+		if call, ok := x.Tuple.(*ssa.Call); ok {
+			return call, x.Index, true
+		}
+	}
+	return nil, 0, false
+}
+
+func (e c14env) verdicts() []c14verdict {
+	var out []c14verdict
+	for _, ft := range e.Facts {
+		if !c14isBoolType(ft.Cond.Type()) {
+			continue
+		}
+		if call, idx, ok := c14callResult(ft.Cond); ok {
+			out = append(out, c14verdict{Call: call, Res: idx, Truth: ft.Truth})
+		}
+	}
+	for _, n := range e.Nils {
+		if !n.IsNil || !c14isErrorType(n.V.Type()) {
+			continue
+		}
+		if call, idx, ok := c14callResult(n.V); ok {
+			out = append(out, c14verdict{Call: call, Res: idx, IsErr: true})
+		}
+	}
+	return out
+}
+
+func c14callees(cc *ssa.CallCommon) []*ssa.Function {
+	if cc.IsInvoke() {
+		return nil
+	}
+	if sc := cc.StaticCallee(); sc != nil {
+		return []*ssa.Function{unwrap(sc)}
+	}
+	return funcsOf(cc.Value)
+}
+
+// c14outcomes: the environments under which a returned value val (evaluated at the end of blk) has the outcome of
+// verdict v (bool: equals v.Truth; error: is nil). `a && b`, `!x`, early returns and merges are all resolved to edges.
+func c14outcomes(val ssa.Value, blk *ssa.BasicBlock, isErr, want bool, out *[]c14env, d int) {
+	c14outcomesOn(val, blk, nil, isErr, want, out, d)
+}
+
+// c14outcomesOn: edge holds what is known in addition to the facts at blk (the edge on which a merge alternative is chosen).
+func c14outcomesOn(val ssa.Value, blk *ssa.BasicBlock, edge *c14env, isErr, want bool, out *[]c14env, d int) {
+	with := func(extra *c14env) *c14env {
+		if edge == nil {
+			return extra
+		}
+		if extra == nil {
+			return edge
+		}
+		return &c14env{Facts: append(append([]Fact{}, edge.Facts...), extra.Facts...), Nils: append(append([]c14nil{}, edge.Nils...), extra.Nils...)}
+	}
+	if d > 12 {
+		*out = append(*out, c14envAt(blk, with(nil)))
+		return
+	}
+	if phi, ok := val.(*ssa.Phi); ok {
+		for k, e := range phi.Edges {
+			p := phi.Block().Preds[k]
+			c14outcomesOn(e, p, c14edgeFact(p, phi.Block()), isErr, want, out, d+1)
+		}
+		return
+	}
+	if !isErr {
+		if bv, ok := constBool(val); ok {
+			if bv == want {
+				*out = append(*out, c14envAt(blk, with(nil)))
+			}
 			return
 		}
-		// the appended element(s)
-		var elems []ssa.Value
-		if sl, ok := call.Call.Args[1].(*ssa.Slice); ok {
-			if arr, ok := sl.X.(*ssa.Alloc); ok {
-				for _, r := range *arr.Referrers() {
-					if ia, ok := r.(*ssa.IndexAddr); ok {
-						for _, r2 := range *ia.Referrers() {
-							if st, ok := r2.(*ssa.Store); ok {
-								elems = append(elems, st.Val)
-							}
-						}
+		if u, ok := val.(*ssa.UnOp); ok && u.Op == token.NOT {
+			c14outcomesOn(u.X, blk, edge, isErr, !want, out, d+1)
+			return
+		}
+		*out = append(*out, c14envAt(blk, with(&c14env{Facts: []Fact{{val, want}}})))
+		return
+	}
+	// an error result: when is it nil?
+	if isNilConst(val) {
+		*out = append(*out, c14envAt(blk, with(nil)))
+		return
+	}
+	if _, ok := val.(*ssa.MakeInterface); ok {
+		return // a concrete error value
+	}
+	if call, ok := val.(*ssa.Call); ok {
+		if n := calleeName(&call.Call); n == "errors.New" || n == "fmt.Errorf" {
+			return
+		}
+	}
+	here := c14envAt(blk, with(nil))
+	for _, n := range here.Nils {
+		if c14sameValue(n.V, val) && !n.IsNil {
+			return
+		}
+	}
+	*out = append(*out, c14envAt(blk, with(&c14env{Nils: []c14nil{{val, true}}})))
+}
+
+func c14returnEnvs(g *ssa.Function, v c14verdict) []c14env {
+	var out []c14env
+	eachInstr(g, func(i ssa.Instruction) {
+		r, ok := i.(*ssa.Return)
+		if !ok || v.Res >= len(r.Results) {
+			return
+		}
+		c14outcomes(r.Results[v.Res], r.Block(), v.IsErr, v.Truth, &out, 0)
+	})
+	return out
+}
+
+// c14leaf names what an environment establishes about the tracked value(s).
+type c14leaf func(env c14env, tracked func(ssa.Value) bool) map[string]bool
+
+// c14implies: the labels that hold whenever verdict v holds, where args lists the argument positions of the call that
+// carry the tracked value. The callee is looked into (every way of producing the outcome must establish a label), and
+// verdicts of further repository functions on the tracked value are followed (wrappers, split validators).
+func c14implies(v c14verdict, args []int, leaf c14leaf, depth int) map[string]bool {
+	if depth > 3 || len(args) == 0 {
+		return nil
+	}
+	callees := c14callees(&v.Call.Call)
+	if len(callees) == 0 {
+		return nil
+	}
+	var out map[string]bool
+	first := true
+	for _, g := range callees {
+		if g == nil || !isRepoFn(g) || len(g.Blocks) == 0 {
+			return nil
+		}
+		p := map[*ssa.Parameter]bool{}
+		for _, k := range args {
+			if k < len(g.Params) {
+				p[g.Params[k]] = true
+			}
+		}
+		tracked := func(x ssa.Value) bool { pp, ok := x.(*ssa.Parameter); return ok && p[pp] }
+		envs := c14returnEnvs(g, v)
+		if len(envs) == 0 {
+			return nil
+		}
+		for _, env := range envs {
+			labels := leaf(env, tracked)
+			if labels == nil {
+				labels = map[string]bool{}
+			}
+			for _, v2 := range env.verdicts() {
+				if v2.Call == v.Call {
+					continue
+				}
+				var idx []int
+				for k, a := range v2.Call.Call.Args {
+					if c14derives(a, tracked) {
+						idx = append(idx, k)
 					}
+				}
+				for l := range c14implies(v2, idx, leaf, depth+1) {
+					labels[l] = true
+				}
+			}
+			if first {
+				out, first = labels, false
+				continue
+			}
+			for l := range out {
+				if !labels[l] {
+					delete(out, l)
 				}
 			}
 		}
-		// only the command list: elements that contain the literal "route add"
-		isCmd := false
-		for _, e := range elems {
-			if derives(e, func(v ssa.Value) bool { s, ok := constString(v); return ok && strings.Contains(s, "route add") }) {
-				isCmd = true
+	}
+	return out
+}
+
+// c14cmp normalises a comparison fact to `X op Y` holding (negation folded into op).
+func c14cmp(ft Fact) (x ssa.Value, op token.Token, y ssa.Value, ok bool) {
+	b, isB := ft.Cond.(*ssa.BinOp)
+	if !isB {
+		return nil, 0, nil, false
+	}
+	op = b.Op
+	if !ft.Truth {
+		switch op {
+		case token.EQL:
+			op = token.NEQ
+		case token.NEQ:
+			op = token.EQL
+		case token.LSS:
+			op = token.GEQ
+		case token.GEQ:
+			op = token.LSS
+		case token.GTR:
+			op = token.LEQ
+		case token.LEQ:
+			op = token.GTR
+		default:
+			return nil, 0, nil, false
+		}
+	}
+	switch op {
+	case token.EQL, token.NEQ, token.LSS, token.GEQ, token.GTR, token.LEQ:
+		return b.X, op, b.Y, true
+	}
+	return nil, 0, nil, false
+}
+
+func c14flip(op token.Token) token.Token {
+	switch op {
+	case token.LSS:
+		return token.GTR
+	case token.GTR:
+		return token.LSS
+	case token.LEQ:
+		return token.GEQ
+	case token.GEQ:
+		return token.LEQ
+	}
+	return op
+}
+
+// c14lenBounds: the interval the facts put on len(X) for the X selected by isX.
+func c14lenBounds(facts []Fact, isX func(ssa.Value) bool) (lo, hi int64) {
+	lo, hi = 0, 1<<40
+	isLen := func(v ssa.Value) bool {
+		call, ok := v.(*ssa.Call)
+		return ok && calleeName(&call.Call) == "builtin.len" && len(call.Call.Args) == 1 && isX(call.Call.Args[0])
+	}
+	for pass := 0; pass < 3; pass++ {
+		for _, ft := range facts {
+			x, op, y, ok := c14cmp(ft)
+			if !ok {
+				continue
+			}
+			if isLen(y) {
+				x, y, op = y, x, c14flip(op)
+			}
+			k, isK := constInt(y)
+			if !isLen(x) || !isK {
+				continue
+			}
+			switch op {
+			case token.EQL:
+				if k > lo {
+					lo = k
+				}
+				if k < hi {
+					hi = k
+				}
+			case token.NEQ:
+				if k == lo {
+					lo++
+				}
+				if k == hi {
+					hi--
+				}
+			case token.LSS:
+				if k-1 < hi {
+					hi = k - 1
+				}
+			case token.LEQ:
+				if k < hi {
+					hi = k
+				}
+			case token.GTR:
+				if k+1 > lo {
+					lo = k + 1
+				}
+			case token.GEQ:
+				if k > lo {
+					lo = k
+				}
 			}
 		}
-		if !isCmd {
-			return
+	}
+	return lo, hi
+}
+
+// ---- T1 ------------------------------------------------------------------------------------------------------
+
+var c14need = []struct{ label, text string }{
+	{"parse", "no error from route.Parse applied to the candidate"},
+	{"one", "exactly one definition"},
+	{"add", "a route add command"},
+	{"table", "no error from route.NewTable applied to the candidate (a path that is not a valid glob or a target that is not a valid URL passes the parser but fails every later table build)"},
+}
+
+// c14leafT1: what an environment says about a candidate command.
+func c14leafT1(c *Ctx) c14leaf {
+	parse, nt := c.fn("route", "Parse"), c.fn("route", "NewTable")
+	return func(env c14env, tracked func(ssa.Value) bool) map[string]bool {
+		labels := map[string]bool{}
+		resultOf := func(v ssa.Value, fn *ssa.Function, idx int) bool {
+			call, k, ok := c14callResult(v)
+			if !ok || fn == nil || k != idx || call.Call.StaticCallee() != fn || len(call.Call.Args) == 0 {
+				return false
+			}
+			return c14derives(call.Call.Args[0], tracked)
 		}
-		for _, e := range elems {
-			if !taintedByCatalog(e) {
+		for _, n := range env.Nils {
+			if !n.IsNil {
+				continue
+			}
+			if resultOf(n.V, parse, 1) {
+				labels["parse"] = true
+			}
+			if resultOf(n.V, nt, 1) {
+				labels["table"] = true
+			}
+		}
+		isDefs := func(v ssa.Value) bool { return resultOf(v, parse, 0) }
+		if lo, hi := c14lenBounds(env.Facts, isDefs); lo == 1 && hi == 1 {
+			labels["one"] = true
+		}
+		for _, ft := range env.Facts {
+			x, op, y, ok := c14cmp(ft)
+			if !ok || op != token.EQL {
+				continue
+			}
+			if _, isK := constString(x); isK {
+				x, y = y, x
+			}
+			if s, isK := constString(y); !isK || s != "route add" {
+				continue
+			}
+			if _, isCmd := fieldOf(x, "route.RouteDef", "Cmd"); isCmd && c14derives(x, isDefs) {
+				labels["add"] = true
+			}
+		}
+		return labels
+	}
+}
+
+// isSingleAddValidator: does verdict v on argument positions args of its call mean "fabio's own parser and table
+// builder accept the candidate as exactly one route add"? Returns what is missing otherwise.
+func isSingleAddValidator(c *Ctx, v c14verdict, args []int) (bool, string) {
+	labels := c14implies(v, args, c14leafT1(c), 0)
+	var missing []string
+	for _, n := range c14need {
+		if !labels[n.label] {
+			missing = append(missing, "["+n.text+"]")
+		}
+	}
+	if len(missing) == 0 {
+		return true, ""
+	}
+	return false, "a positive verdict does not require " + strings.Join(missing, " ")
+}
+
+type c14t1 struct {
+	c   *Ctx
+	why string
+}
+
+// validated: the value e, used at the end of block blk (where additionally `extra` holds), has been accepted by a
+// validator.
+func (t *c14t1) validated(e ssa.Value, blk *ssa.BasicBlock, extra *c14env, depth int) bool {
+	if depth > 4 {
+		return false
+	}
+	env := c14envAt(blk, extra)
+	// (A0) the validator's conditions hold right here (the validator was inlined)
+	{
+		labels := c14leafT1(t.c)(env, func(x ssa.Value) bool { return c14sameValue(x, e) })
+		all := true
+		for _, n := range c14need {
+			if !labels[n.label] {
+				all = false
+			}
+		}
+		if all {
+			return true
+		}
+	}
+	// (A) a verdict on this very value
+	for _, v := range env.verdicts() {
+		var idx []int
+		for k, a := range v.Call.Call.Args {
+			if c14sameValue(a, e) {
+				idx = append(idx, k)
+			}
+		}
+		if len(idx) == 0 {
+			continue
+		}
+		ok, why := isSingleAddValidator(t.c, v, idx)
+		if ok {
+			return true
+		}
+		name := "?"
+		if cs := c14callees(&v.Call.Call); len(cs) > 0 {
+			name = fnKey(cs[0])
+		}
+		t.why = "the validator " + name + " must be 'fabio's parser and table builder accept it as exactly one route add command': " + why
+	}
+	call, k, isRes := c14callResult(e)
+	var h *ssa.Function
+	if isRes {
+		if cs := c14callees(&call.Call); len(cs) == 1 && isRepoFn(cs[0]) && len(cs[0].Blocks) > 0 {
+			h = cs[0]
+		}
+	}
+	if h != nil {
+		// (B) the helper returns the command together with a verdict that is known here: `cmd, ok := h(..); if ok`
+		for _, ft := range env.Facts {
+			fc, j, ok := c14callResult(ft.Cond)
+			if !ok || fc != call || j == k || !c14isBoolType(ft.Cond.Type()) {
+				continue
+			}
+			if t.helperResult(h, k, j, ft.Truth, depth) {
+				return true
+			}
+		}
+		for _, n := range env.Nils {
+			fc, j, ok := c14callResult(n.V)
+			if !ok || fc != call || j == k || !n.IsNil || !c14isErrorType(n.V.Type()) {
+				continue
+			}
+			if t.helperResultErr(h, k, j, depth) {
+				return true
+			}
+		}
+		// (C) the helper returns only validated commands (or constants)
+		if t.helperResult(h, k, -1, true, depth) {
+			return true
+		}
+	}
+	// (D) a parameter of a helper that does the storing: validated at every call site
+	if p, ok := e.(*ssa.Parameter); ok {
+		fn := p.Parent()
+		sites := gSites[fn]
+		if fn != nil && onlyStaticallyCalled(fn) && len(sites) > 0 && len(sites) <= maxHelperSites {
+			idx := -1
+			for i, q := range fn.Params {
+				if q == p {
+					idx = i
+				}
+			}
+			all := idx >= 0
+			for _, s := range sites {
+				if !all {
+					break
+				}
+				if _, isGo := s.(*ssa.Go); isGo || idx >= len(s.Common().Args) || !t.validated(s.Common().Args[idx], s.Block(), nil, depth+1) {
+					all = false
+				}
+			}
+			if all {
+				return true
+			}
+		}
+	}
+	// (E) a merge: every non-constant alternative is validated where it is chosen
+	if phi, ok := e.(*ssa.Phi); ok {
+		n, all := 0, true
+		for i, ed := range phi.Edges {
+			if _, isK := ed.(*ssa.Const); isK {
 				continue
 			}
 			n++
-			// validated on the true edge, on the very same value
-			var vcall *ssa.Call
-			for _, ft := range factsAt(call.Block()) {
-				if vc, ok := ft.Cond.(*ssa.Call); ok && ft.Truth && vc.Call.StaticCallee() != nil && isRepoFn(vc.Call.StaticCallee()) && len(vc.Call.Args) == 1 && vc.Call.Args[0] == e {
-					vcall = vc
-				}
+			if !t.validated(ed, phi.Block().Preds[i], c14edgeFact(phi.Block().Preds[i], phi.Block()), depth+1) {
+				all = false
 			}
-			if vcall == nil {
-				c.check("C14.T1", "(registry/consul.routecmd).build|service-derived command validated before use", call.Pos(), false,
-					"a command assembled from catalog data (service name, tags, option strings) is appended to the configuration without being accepted by fabio's own parser first: one registration such as 'urlprefix-/x weight=abc', a tag containing a double quote, or a tag with a newline (second command!) makes every later table build fail — or injects a command")
+		}
+		if n > 0 && all {
+			return true
+		}
+	}
+	return false
+}
+
+// helperResult: in helper h, every return whose result j can have the value `truth` (j < 0: every return) hands out, as
+// result k, a constant or a value that is validated at that return.
+func (t *c14t1) helperResult(h *ssa.Function, k, j int, truth bool, depth int) bool {
+	n, all := 0, true
+	eachInstr(h, func(i ssa.Instruction) {
+		r, ok := i.(*ssa.Return)
+		if !ok || k >= len(r.Results) || !all {
+			return
+		}
+		if j < 0 {
+			if _, isK := r.Results[k].(*ssa.Const); isK {
+				return
+			}
+			n++
+			if !t.validated(r.Results[k], r.Block(), nil, depth+1) {
+				all = false
+			}
+			return
+		}
+		if j >= len(r.Results) {
+			all = false
+			return
+		}
+		for _, pr := range c14pairs(r.Results[j], r.Results[k], r.Block(), 0) {
+			if bv, isK := constBool(pr.verdict); isK && bv != truth {
 				continue
 			}
-			ok, why := isSingleAddValidator(c, vcall.Call.StaticCallee())
-			c.check("C14.T1", "(registry/consul.routecmd).build|service-derived command validated before use", call.Pos(), ok,
-				"the validator "+fnKey(vcall.Call.StaticCallee())+" must be 'route.Parse accepts it as exactly one route add command': "+why)
-		}
-	})
-	c.atLeast("C14.T1", "service-derived commands appended in routecmd.build", n, 1)
-}
-
-func runQuotingFor(c *Ctx, rule string, p *ssa.Function) {
-	tmp := &Ctx{Dir: c.Dir, Pkgs: c.Pkgs, Fset: c.Fset, Prog: c.Prog, spkgs: c.spkgs, ppkgs: c.ppkgs, AllFns: c.AllFns, cg: c.cg}
-	runQuoting(tmp, rule)
-	for _, o := range tmp.Obs {
-		if strings.Contains(o.Construct, "routecmd") || strings.HasPrefix(o.Construct, "anchor|") {
-			c.Obs = append(c.Obs, o)
-		}
-	}
-}
-
-func runC14I1(c *Ctx) {
-	mk := c.method("registry/consul", "ServiceMonitor", "makeConfig")
-	sc := c.method("registry/consul", "ServiceMonitor", "serviceConfig")
-	if !c.need("C14.I1", mk, "consul.ServiceMonitor.makeConfig") || !c.need("C14.I1", sc, "consul.ServiceMonitor.serviceConfig") {
-		return
-	}
-	// per-service goroutine: exactly one unconditional send of serviceConfig's result
-	var g *ssa.Function
-	eachInstr(mk, func(i ssa.Instruction) {
-		if gi, ok := i.(*ssa.Go); ok {
-			if mc, ok := gi.Call.Value.(*ssa.MakeClosure); ok {
-				g = mc.Fn.(*ssa.Function)
+			if _, isK := pr.val.(*ssa.Const); isK {
+				continue
+			}
+			n++
+			var extra *c14env
+			if _, isK := pr.verdict.(*ssa.Const); !isK {
+				cond, tr := pr.verdict, truth
+				for {
+					u, isNot := cond.(*ssa.UnOp)
+					if !isNot || u.Op != token.NOT {
+						break
+					}
+					cond, tr = u.X, !tr
+				}
+				extra = &c14env{Facts: []Fact{{cond, tr}}}
+			}
+			if !t.validated(pr.val, pr.blk, c14join(pr.edge, extra), depth+1) {
+				all = false
 			}
 		}
 	})
-	if g == nil {
-		c.undecided("C14.I1", "consul.makeConfig|per-service goroutine", "not found")
-		return
-	}
-	var sends []*ssa.Send
-	eachInstr(g, func(i ssa.Instruction) {
-		if s, ok := i.(*ssa.Send); ok && typeStr(s.X.Type()) == "[]string" {
-			sends = append(sends, s)
+	return n > 0 && all
+}
+
+// helperResultErr: like helperResult for `cmd, err := h(..); if err == nil`.
+func (t *c14t1) helperResultErr(h *ssa.Function, k, j int, depth int) bool {
+	n, all := 0, true
+	eachInstr(h, func(i ssa.Instruction) {
+		r, ok := i.(*ssa.Return)
+		if !ok || k >= len(r.Results) || j >= len(r.Results) || !all {
+			return
+		}
+		for _, pr := range c14pairs(r.Results[j], r.Results[k], r.Block(), 0) {
+			var envs []c14env
+			c14outcomesOn(pr.verdict, pr.blk, pr.edge, true, true, &envs, 0)
+			if len(envs) == 0 {
+				continue // this return reports an error
+			}
+			if _, isK := pr.val.(*ssa.Const); isK {
+				continue
+			}
+			n++
+			var extra *c14env
+			if !isNilConst(pr.verdict) {
+				extra = &c14env{Nils: []c14nil{{pr.verdict, true}}}
+			}
+			if !t.validated(pr.val, pr.blk, c14join(pr.edge, extra), depth+1) {
+				all = false
+			}
 		}
 	})
-	okSend := len(sends) == 1
-	if okSend {
-		s := sends[0]
-		// on every path to return, exactly once: the send's block dominates all returns and is not in a loop
-		eachInstr(g, func(i ssa.Instruction) {
-			if r, ok := i.(*ssa.Return); ok && !dominatesInstr(s, r) {
-				okSend = false
-			}
-		})
-		if pathAvoiding(s, s, nil) {
-			okSend = false
-		}
-		if call, ok := s.X.(*ssa.Call); !ok || call.Call.StaticCallee() != sc {
-			okSend = false
-		}
+	return n > 0 && all
+}
+
+type c14pair struct {
+	verdict, val ssa.Value
+	blk          *ssa.BasicBlock
+	edge         *c14env // what the edge on which this alternative was chosen adds to the facts at blk
+}
+
+// c14join: the union of two (possibly nil) sets of extra knowledge.
+func c14join(a, b *c14env) *c14env {
+	if a == nil {
+		return b
 	}
-	c.check("C14.I1", "consul.makeConfig$goroutine|exactly one result per service on every path", g.Pos(), okSend,
-		"each per-service goroutine must send its (possibly empty) result exactly once on every path; a goroutine that sends nothing on failure makes the collector wait forever (all route updates stop), one that sends twice shifts results")
-	// collector: receives len(m) results, no early exit from the loop
-	okLoop := false
-	for _, l := range loopsOf(mk) {
-		recv := false
-		for b := range l.Body {
-			for _, in := range b.Instrs {
-				if u, ok := in.(*ssa.UnOp); ok && u.Op == token.ARROW && typeStr(u.Type()) == "[]string" {
-					recv = true
+	if b == nil {
+		return a
+	}
+	return &c14env{Facts: append(append([]Fact{}, a.Facts...), b.Facts...), Nils: append(append([]c14nil{}, a.Nils...), b.Nils...)}
+}
+
+// c14pairs splits a returned (verdict, value) pair along the merges that produced the verdict, so that each alternative
+// is looked at in the block where it was chosen. The value is split only together with the verdict (a verdict computed
+// on a merged value is a verdict on the merge, not on its alternatives).
+func c14pairs(verdict, val ssa.Value, blk *ssa.BasicBlock, d int) []c14pair {
+	return c14pairsOn(verdict, val, blk, nil, d)
+}
+
+func c14pairsOn(verdict, val ssa.Value, blk *ssa.BasicBlock, edge *c14env, d int) []c14pair {
+	pv, ok1 := verdict.(*ssa.Phi)
+	px, ok2 := val.(*ssa.Phi)
+	if d < 6 && ok1 {
+		var out []c14pair
+		for i, e := range pv.Edges {
+			x := val
+			if ok2 && px.Block() == pv.Block() {
+				x = px.Edges[i]
+			}
+			p := pv.Block().Preds[i]
+			out = append(out, c14pairsOn(e, x, p, c14edgeFact(p, pv.Block()), d+1)...)
+		}
+		return out
+	}
+	return []c14pair{{verdict, val, blk, edge}}
+}
+
+func runC14T1(st *c14state) {
+	c := st.c
+	for _, s := range st.sinks {
+		t := &c14t1{c: c}
+		ok := t.validated(s.val, s.store.Block(), nil, 0)
+		why := t.why
+		if why == "" {
+			why = "no verdict of a validator on this very string holds where it is stored"
+		}
+		c.check("C14.T1", fnKey(s.fn)+"|service-derived command validated before use", s.store.Pos(), ok,
+			"a command assembled from catalog data (service name, tags, option strings) enters the configuration without being accepted by fabio's own parser and table builder first: one registration such as 'urlprefix-/x weight=abc', a tag containing a double quote, or a tag with a newline (second command!) makes every later table build fail - or injects a command; "+why)
+	}
+}
+
+// ---- Q1 ------------------------------------------------------------------------------------------------------
+
+// runQuotingFor is kept for callers that name a producer; the producer is found by role now.
+func runQuotingFor(c *Ctx, rule string, _ *ssa.Function) {
+	st := &c14state{c: c, owners: map[*ssa.Function]bool{}}
+	st.findSinks()
+	c.atLeast(rule, "producers of route command text from catalog entries", len(st.sinks), 1)
+	c14Quoting(st, rule)
+}
+
+func c14Quoting(st *c14state, rule string) {
+	c := st.c
+	parse := c.fn("route", "Parse")
+	if !c.need(rule, parse, "route.Parse") {
+		return
+	}
+	consumerUnquotes := false
+	eachInstrOf(c.regionDepth(6, parse), func(_ *ssa.Function, i ssa.Instruction) {
+		if cc := callCommon(i); cc != nil {
+			if n := calleeName(cc); strings.HasPrefix(n, "strconv.Unquote") || strings.HasPrefix(n, "strconv.QuotedPrefix") {
+				consumerUnquotes = true
+			}
+		}
+	})
+	for _, s := range st.sinks {
+		quotes := false
+		pos := s.store.Pos()
+		c14slice(s.val, func(x ssa.Value) {
+			call, ok := x.(*ssa.Call)
+			if !ok {
+				return
+			}
+			name := calleeName(&call.Call)
+			if strings.HasPrefix(name, "strconv.Quote") || strings.HasPrefix(name, "strconv.AppendQuote") {
+				quotes, pos = true, call.Pos()
+			}
+			if strings.HasPrefix(name, "fmt.Sprint") || strings.HasPrefix(name, "fmt.Fprint") || strings.HasPrefix(name, "fmt.Append") {
+				for _, a := range call.Call.Args {
+					if f, ok := constString(a); ok && c14hasQuoteVerb(f) {
+						quotes, pos = true, call.Pos()
+					}
 				}
 			}
-		}
-		if !recv {
+		})
+		c.check(rule, fnKey(s.fn)+"|quoted fields written the way the parser reads them", pos, quotes == consumerUnquotes,
+			"the route parser takes the text between the double quotes verbatim (it never unquotes), so a producer that escapes with %q / strconv.Quote writes text that parses into different tags/options (backslashes, non-printable characters) or, for a value containing a quote, into an invalid line")
+	}
+}
+
+// c14hasQuoteVerb: the format contains a %q verb (flags and width allowed).
+func c14hasQuoteVerb(f string) bool {
+	for i := 0; i < len(f); i++ {
+		if f[i] != '%' {
 			continue
 		}
-		early := false
-		for b := range l.Body {
-			if b == l.Head {
-				continue
-			}
-			for _, sx := range b.Succs {
-				if !l.Body[sx] {
-					early = true
-				}
-			}
+		j := i + 1
+		for j < len(f) && strings.ContainsRune("+-# 0123456789.[]*", rune(f[j])) {
+			j++
 		}
-		// bound: i < len(m) with m the map ranged over when spawning
-		bound := false
-		if iff, ok := l.Head.Instrs[len(l.Head.Instrs)-1].(*ssa.If); ok {
-			if b, ok := iff.Cond.(*ssa.BinOp); ok && b.Op == token.LSS {
-				if lc, ok := b.Y.(*ssa.Call); ok && calleeName(&lc.Call) == "builtin.len" {
-					if _, isMap := lc.Call.Args[0].(*ssa.MakeMap); isMap {
-						bound = true
-					}
-				}
-			}
+		if j < len(f) && f[j] == 'q' {
+			return true
 		}
-		okLoop = !early && bound
-	}
-	c.check("C14.I1", "(*registry/consul.ServiceMonitor).makeConfig|collector takes exactly one result per service", mk.Pos(), okLoop,
-		"the collector must receive len(m) results and keep going whatever a single service returned: aborting on one empty/failed result drops the routes of all other services (and leaks the remaining goroutines)")
-	// serviceConfig: error paths return nil / its own slice only
-	okRet := true
-	eachInstr(sc, func(i ssa.Instruction) {
-		r, ok := i.(*ssa.Return)
-		if !ok {
-			return
-		}
-		if !isNilConst(r.Results[0]) {
-			// must be the local accumulator
-			if _, isPhi := r.Results[0].(*ssa.Phi); !isPhi {
-				if _, isCall := r.Results[0].(*ssa.Call); !isCall {
-					okRet = false
-				}
-			}
-		}
-	})
-	// the catalog error edge returns (does not panic / exit)
-	var catErrOK bool
-	eachInstr(sc, func(i ssa.Instruction) {
-		call, ok := i.(*ssa.Call)
-		if !ok || calleeName(&call.Call) != "(*"+apiPkg+".Catalog).Service" {
-			return
-		}
-		for _, b := range sc.Blocks {
-			if len(b.Preds) == 1 && knownNonNil(b, func(v ssa.Value) bool { e, ok := v.(*ssa.Extract); return ok && e.Tuple == call && e.Index == 2 }) {
-				if _, isRet := b.Instrs[len(b.Instrs)-1].(*ssa.Return); isRet {
-					catErrOK = true
-				}
-			}
-		}
-	})
-	c.check("C14.I1", "(*registry/consul.ServiceMonitor).serviceConfig|a failing catalog query drops only this service", sc.Pos(), okRet && catErrOK,
-		"when the catalog query for one service fails, serviceConfig must return (nil) for that service only")
-}
-
-func runC14N1(c *Ctx, build *ssa.Function) {
-	// dst = scheme + net.JoinHostPort(addr, Itoa(ServicePort)), addr from ServiceAddress with node Address as fallback
-	var join *ssa.Call
-	eachInstr(build, func(i ssa.Instruction) {
-		if call, ok := i.(*ssa.Call); ok && calleeName(&call.Call) == "net.JoinHostPort" {
-			join = call
-		}
-	})
-	if join == nil {
-		c.check("C14.N1", "(registry/consul.routecmd).build|destination host:port", build.Pos(), false, "the destination must be built with net.JoinHostPort (IPv6 literals need brackets)")
-		return
-	}
-	hasField := func(v ssa.Value, field string) bool {
-		return derivesThroughRepo(v, func(x ssa.Value) bool { _, ok := fieldOf(x, "api.CatalogService", field); return ok })
-	}
-	addr := join.Call.Args[0]
-	okAddr := hasField(addr, "ServiceAddress") && hasField(addr, "Address")
-	// the node address is only the fallback: its edge is taken under ServiceAddress == ""
-	if okAddr {
-		fb := false
-		for _, d := range defsOf(addr) {
-			if _, isNode := fieldOf(d.Val, "api.CatalogService", "Address"); isNode && d.Block != nil {
-				for _, ft := range factsAt(d.Block) {
-					if b, ok := ft.Cond.(*ssa.BinOp); ok && b.Op == token.EQL && ft.Truth {
-						if s, ok := constString(b.Y); ok && s == "" {
-							fb = true
-						}
-					}
-				}
-			}
-		}
-		// darwin suffix handling wraps the phi: accept when some nested definition shows the fallback
-		if !fb {
-			derives(addr, func(x ssa.Value) bool {
-				for _, d := range defsOf(x) {
-					if _, isNode := fieldOf(d.Val, "api.CatalogService", "Address"); isNode && d.Block != nil {
-						for _, ft := range factsAt(d.Block) {
-							if b, ok := ft.Cond.(*ssa.BinOp); ok && b.Op == token.EQL && ft.Truth {
-								if s, ok := constString(b.Y); ok && s == "" {
-									fb = true
-								}
-							}
-						}
-					}
-				}
-				return false
-			})
-		}
-		okAddr = fb
-	}
-	okPort := hasField(join.Call.Args[1], "ServicePort")
-	// the destination is computed afresh for every routing tag: the value pasted into the command must not be
-	// carried over from the previous tag (an earlier tag's proto=/redirect= destination would leak into later ones)
-	var outer *loop
-	for _, l := range loopsOf(build) {
-		if l.Body[join.Block()] && (outer == nil || len(l.Body) > len(outer.Body)) {
-			outer = l
+		if j < len(f) && f[j] == '%' {
+			i = j
 		}
 	}
-	carried := outer == nil
-	if outer != nil {
-		eachInstr(build, func(i ssa.Instruction) {
-			b, ok := i.(*ssa.BinOp)
-			if !ok || b.Op != token.ADD {
-				return
-			}
-			// "route add " + name + " " + route + " " + dst : find concatenations whose left part contains the literal
-			if !derives(b.X, func(v ssa.Value) bool { s, ok := constString(v); return ok && strings.HasPrefix(s, "route add") }) {
-				return
-			}
-			if derives(b.Y, func(v ssa.Value) bool {
-				phi, ok := v.(*ssa.Phi)
-				return ok && phi.Block() == outer.Head && phi.Comment != "rangeindex" // the iteration's own index is not carried state
-			}) {
-				carried = true
-			}
-		})
-	}
-	c.check("C14.N1", "(registry/consul.routecmd).build|destination computed per routing tag", join.Pos(), !carried,
-		"the destination of a route command must be built inside the iteration for its own routing tag; a destination initialised once before the loop is overwritten by an earlier tag's proto=/redirect= option and leaks into the commands of later tags (valid syntax, wrong target)")
-	c.check("C14.N1", "(registry/consul.routecmd).build|destination is the service address (node address as fallback) and the service port", join.Pos(), okAddr && okPort,
-		"the route must point at the registered instance: ServiceAddress, falling back to the node's Address only when it is empty, joined with ServicePort")
-	// proto table
-	want := map[string]string{"proto=tcp": "tcp://", "proto=https": "https://", "proto=grpc": "grpc://", "proto=grpcs": "grpcs://"}
-	seen := map[string]bool{}
-	eachInstr(build, func(i ssa.Instruction) {
-		b, ok := i.(*ssa.BinOp)
-		if !ok || b.Op != token.ADD {
-			return
-		}
-		s, isS := constString(b.X)
-		if !isS || !strings.HasSuffix(s, "://") {
-			return
-		}
-		for opt, scheme := range want {
-			if scheme != s {
-				continue
-			}
-			for _, ft := range factsAt(b.Block()) {
-				if cmp, ok := ft.Cond.(*ssa.BinOp); ok && cmp.Op == token.EQL && ft.Truth {
-					if o, ok := constString(cmp.Y); ok && o == opt {
-						seen[opt] = true
-					}
-				}
-			}
-		}
-	})
-	okProto := true
-	for opt := range want {
-		if !seen[opt] {
-			okProto = false
-		}
-	}
-	c.check("C14.N1", "(registry/consul.routecmd).build|scheme prefix follows the proto= option", build.Pos(), okProto,
-		"each proto= option (tcp, https, grpc, grpcs) must select its own scheme prefix for the destination; http:// is the default")
+	return false
 }
